@@ -626,8 +626,12 @@ func vcfsWalk(fs FileSystem, rng *rand.Rand, bs int, aname func(string) string, 
 			p := append(append([]string{}, prefix...), aname(fi.Name()))
 			if fi.IsDir() {
 				ents = append(ents, []interface{}{p, "d", ""})
-				if len(p) < 8 {
+				if len(p) < 64 {
 					walk(p)
+				} else {
+					// deeper than any tree the drivers build (renames nest directories slowly):
+					// reported as an entry the model cannot have, so that the judge decides
+					ents = append(ents, []interface{}{append(append([]string{}, p...), "!toodeep"), "d", ""})
 				}
 			} else {
 				data, ok := vcfsReadAll(fs, rng, cpath(p), bs)
@@ -689,7 +693,9 @@ func (r *vcfsRun) existing() (dirs [][]string, files [][]string) {
 			p := append(append([]string{}, prefix...), r.aname(fi.Name()))
 			if fi.IsDir() {
 				dirs = append(dirs, p)
-				if len(p) < 6 {
+				if len(p) < 5 {
+					// (generator feedback only: deeper directories are not offered as targets,
+					// which keeps trees shallow; the snapshot walker has no such limit)
 					walk(p)
 				}
 			} else {
